@@ -53,7 +53,7 @@ def run(ctx):
     quick = ctx.quick()
     ctx.cov["rule"] = ("cases = (method shape, payload value vector) pairs enumerated by TLC from HTTPTransport.tla; non-trivial = some attribute "
                        "outside the body or optional/defaulted; distinct = canonical JSON of (shapes, values)")
-    for d in hc.DEVIATIONS[:5]:
+    for d in hc.DEVIATIONS[:5] + ["decode.mapparams_prefix_expected"]:
         ctx.mc_expect_violation("mc/MC_HTTPTransport", consts={"Deviations": '{"%s"}' % d}, label="MC dev " + d)
     vectors = hc.gen_vectors(ctx, "req", 1, 1)
     frac = float(__import__("os").environ.get("VERIF_FRAC") or (0.12 if quick else 1.0))
